@@ -27,6 +27,7 @@ SEG_TOKENS = ["", "p", "q", "abc", "a.txt", "...", "..", ".", "%2f", "%2F", "%25
 EXTRAS = ["/a.txt", "/b/c.txt", "/missing", "/", "", "//a.txt", "/b", "/b/", "/abc", "/é.txt", "/%C3%A9.txt",
           "/a%20b", "/a.txt?x=1", "/b%2fc.txt", "/b%252fc.txt", "/./a.txt", "/../next.txt", "/b/../a.txt", "?q"]
 TRANSFORMS = [None, None, [{"string.add_prefix": "id-"}], ["string.to_upper"],
+              [{"string.add_suffix": {"suffix": ".b.example"}}], [{"string.add_prefix": {"prefix": "h-"}}],
               [{"string.add_suffix": ".x"}, "string.to_lower"], ["mac_address.normalize"],
               [{"mac_address.normalize": {"raise_error_if_malformed": True}}]]
 
@@ -272,6 +273,13 @@ def gen_c06(rng, tier, mult=1):
                 "_meta": {"style": style}}
         if cfg.get("transform") and any("raise_error_if_malformed" in str(s) for s in cfg["transform"]):
             case["transform_may_raise"] = True
+        if cfg.get("transform") and any(isinstance(st, dict) and isinstance(list(st.values())[0], dict)
+                                        for st in cfg["transform"]):
+            # other handlers of the same process, created EARLIER, use the same transformations with the same keyword
+            # names and other values: every handler applies its own configuration
+            case["prior_transforms"] = [[{"string.add_suffix": {"suffix": ".a.example"}}],
+                                        [{"string.add_prefix": {"prefix": "x-"}}],
+                                        [{"mac_address.normalize": {"raise_error_if_malformed": False}}]]
         yield case
     if tier != "quick":
         yield from small_scope_c06()
